@@ -45,6 +45,9 @@ def alphabet():
         if_(CMP("<", Y, C(2))),
         assign("<t>", S(V("<t>"), V("<dt>"))),
         acall(["a", "b"], "<func>g2", [Y]),
+        # calls inside a looped assignment: the failure can strike in any iteration
+        assign("d", S(V("i"), ["call", V("<func>f"), [V("i")], [["k", C(6)]]]), loops=[["i", C(0), C(3)]]),
+        assign("c", ["call", V("<func>f"), [S(Y, V("i"))], [["k", C(7)]]], loops=[["i", C(0), C(2)]]),
     ]
 
 
